@@ -475,7 +475,7 @@ def checks():
             bound={'quick': 'whole catalogue', 'thorough': 'whole catalogue'}),
         HypCheck(
             'equality', pairs, run_pair,
-            budget={'quick': (16, 60), 'thorough': (16, 4000)},
+            budget={'quick': (16, 150), 'thorough': (16, 4000)},
             rule='pairs of generated trees: two builds of one description, '
                  'and 1-2 single-field perturbations (attribute set / unset, '
                  'deep metadata edit, change or file added / removed / '
